@@ -196,7 +196,10 @@ func normalizeStatement(
 
 	normalizeChildren := func(children []*sysl.Statement, parentIndex []int) error {
 		for i, child := range children {
-			err := normalizeStatement(ctx, s, app, ep, child, append(parentIndex, i))
+			// each child gets its own copy of the position path: appending to the parent's slice in
+			// place makes siblings share one backing array once it has spare capacity
+			childIndex := append(append(make([]int, 0, len(parentIndex)+1), parentIndex...), i)
+			err := normalizeStatement(ctx, s, app, ep, child, childIndex)
 			if err != nil {
 				return err
 			}
@@ -259,7 +262,7 @@ func normalizeStatement(
 		// and recurse on their children.
 		for i, choice := range stmt.GetAlt().Choice {
 			statement = stmtSkeleton()
-			statement.StmtIndex = append(statement.StmtIndex, i)
+			statement.StmtIndex = append(append(make([]int, 0, len(stmtIndex)+1), stmtIndex...), i)
 			statement.StmtAlt = tuple{"choice": choice.Cond}
 			if err := normalizeChildren(choice.Stmt, statement.StmtIndex); err != nil {
 				return err
